@@ -64,6 +64,9 @@ def run_modes(case):
     args0 = ['--language', 'en-GB', '--packages', '*']
     if case['multi']:
         args0 += ['--multi-language', '--ml-continue-threshold', '2']
+        if case.get('ml_rule') is not None:
+            # the configured rule options for short parts: parts of at most N words get the additional --disable rule
+            args0 += ['--ml-disable', 'QXRULE', '--ml-disablecategories', 'QXCAT', '--ml-rule-threshold', str(case['ml_rule'])]
     spec = {'flag_words': case['flag'], 'shuffle': case.get('shuffle', False)}
     out = {}
     for mode in case['modes']:
@@ -140,6 +143,14 @@ def judge(case, res):
                 a = l['argv']
                 if a.count('--language') != 1:
                     fails.append('a part was submitted with %d --language options' % a.count('--language'))
+                if case.get('ml_rule') is not None:
+                    short = len(l['plain'].split()) <= case['ml_rule']
+                    dis = a[a.index('--disable') + 1] if '--disable' in a else ''
+                    cat = a[a.index('--disablecategories') + 1] if '--disablecategories' in a else ''
+                    if ('QXRULE' in dis.split(',')) != short or ('QXCAT' in cat.split(',')) != short:
+                        fails.append('a part of %d words (--ml-rule-threshold %d) was submitted with --disable %r --disablecategories %r: the rule '
+                                     'options configured for short parts must apply exactly to parts of at most that many words'
+                                     % (len(l['plain'].split()), case['ml_rule'], dis, cat))
     return fails
 
 def one(case):
@@ -152,6 +163,8 @@ def run(ctx):
     for i in range(n):
         c = make_case(rng, multi=(i % 2 == 0))
         c['modes'] = ['plain', 'json', 'xml', 'xml-b', 'html'] if i % 2 == 0 else ['plain', 'json']
+        if c['multi'] and i % 4 == 0:
+            c['ml_rule'] = rng.choice([0, 1, 2, 2, 3, 4])
         c['shuffle'] = rng.random() < 0.5
         if ctx.tier == 'thorough' and i % 5 == 0:
             c['hashseed'] = rng.randint(1, 1000)
@@ -180,7 +193,7 @@ def run(ctx):
         ctx.count('multi' if c['multi'] else 'single'); ctx.count('modes', len(c['modes']))
         fails = judge(c, r)
         if fails:
-            ctx.violation(fails[0], src=c['src'], flag=c['flag'], multi=c['multi'], modes=c['modes'], shuffle=c['shuffle'], all=fails[:4])
+            ctx.violation(fails[0], src=c['src'], flag=c['flag'], multi=c['multi'], modes=c['modes'], shuffle=c['shuffle'], all=fails[:4], ml_rule=c.get('ml_rule'))
         if len(ctx.samples) < 3:
             ctx.sample({'src': c['src'][:200], 'flag': c['flag'], 'plain_report': r['plain']['stdout'][:300]})
     leaf(ctx)
@@ -198,6 +211,6 @@ def judge_witness(w):
 
 def replay(data):
     v = data['violation']
-    f = judge_witness({'src': v['src'], 'flag': v['flag'], 'multi': v['multi'], 'modes': v.get('modes', ['plain', 'json']), 'shuffle': v.get('shuffle', False)})
+    f = judge_witness({'src': v['src'], 'flag': v['flag'], 'multi': v['multi'], 'modes': v.get('modes', ['plain', 'json']), 'shuffle': v.get('shuffle', False), 'ml_rule': v.get('ml_rule')})
     print('\n'.join(f) if f else 'ok')
     return not f
